@@ -62,7 +62,7 @@ theorem mem_nonTerminals (l : Flat) (x : Nat) (hx : x ∈ nonTerminals l) :
 /-- all that the translated code needs to know about position `i` -/
 structure ShrinkFacts (l : Flat) (i : Nat) : Prop where
   args_pos : 0 < (argsIds i (arities l)).length
-  find_args : find_id_args_from_i (i : Int) (arsI l) = some ((argsIds i (arities l)).map Int.ofNat)
+  find_args : Tree_get_args_id (symsI l) (arsI l) (i : Int) = some ((argsIds i (arities l)).map Int.ofNat)
   sub : ∀ k, k < (argsIds i (arities l)).length →
     Tree_subtree (symsI l) (arsI l) (((argsIds i (arities l)).getD k 0 : Nat) : Int) =
       some [symsI (subtree l ((argsIds i (arities l)).getD k 0)),
@@ -81,7 +81,10 @@ theorem shrinkFacts (t : RT) (i : Nat) (hi : i ∈ nonTerminals (flat t)) : Shri
     simp only [RT.kids] at hpos
     have hlen : (argsIds pre.length (arities (pre ++ flat (.node s ks) ++ post))).length = ks.length := by
       rw [argsIds_flat]; simp
-    refine ⟨by omega, src_find_id_args pre post _, ?_, fun other => src_tree_concat pre post other _⟩
+    refine ⟨by omega, ?_, ?_, fun other => src_tree_concat pre post other _⟩
+    · have h := src_find_id_args pre post (.node s ks)
+      simp only [Tree_get_args_id, arsI, h]
+      simp
     intro k hk
     rw [hlen] at hk
     obtain ⟨pre', post', h1, h2⟩ := kid_context pre post s ks k hk
